@@ -678,8 +678,8 @@ class RunLength2dArray(IndexableMixin, np.lib.mixins.NDArrayOperatorsMixin):
         else:
             values = self._values.ravel()
         assert len(values) == len(positions), (values, positions)
-        if np.issubdtype(values.dtype, np.integer):
-            if np.issubdtype(values.dtype, np.signedinteger):
+        if np.issubdtype(values.dtype, np.integer) or values.dtype == bool:
+            if np.issubdtype(values.dtype, np.signedinteger) or values.dtype == bool:
                 values = values.astype(int)
             else:
                 values = values.astype(np.uint64)
